@@ -4,6 +4,13 @@ import Driver.Matrix
 import Driver.Composite
 import Driver.CompRegion
 import Driver.Trap
+import Driver.RegionAlloc
+import Driver.Gradient
+import Driver.Threads
+import Driver.Filter
+import Driver.Sample
+import Driver.Simd
+import Driver.ImageState
 /-! `pixdrv <domain>`: reads requests on stdin, writes one reply line per request. -/
 
 partial def loop (h : IO.FS.Stream) (out : IO.FS.Stream) (f : String → String) : IO Unit := do
@@ -22,4 +29,11 @@ def main (args : List String) : IO UInt32 := do
   | ["composite"] => loop stdin stdout Driver.Composite.handle; return 0
   | ["compregion"] => loop stdin stdout Driver.CompRegion.handle; return 0
   | ["trap"] => loop stdin stdout Driver.Trap.handle; return 0
+  | ["regionalloc"] => loop stdin stdout Driver.RegionAlloc.handle; return 0
+  | ["gradient"] => loop stdin stdout Driver.Gradient.handle; return 0
+  | ["threads"] => loop stdin stdout Driver.Threads.handle; return 0
+  | ["filter"] => loop stdin stdout Driver.Filter.handle; return 0
+  | ["sample"] => loop stdin stdout Driver.Sample.handle; return 0
+  | ["simd"] => loop stdin stdout Driver.Simd.handle; return 0
+  | ["imgstate"] => loop stdin stdout Driver.ImageState.handle; return 0
   | _ => IO.eprintln "usage: pixdrv <domain>"; return 2
